@@ -56,10 +56,11 @@ _real_read = os.read
 
 
 class Seam:
-    def __init__(self, chan, gate_root, proc_id, seed_hex):
+    def __init__(self, chan, gate_root, proc_id, seed_hex, incarnation=0):
         self.chan = chan
         self.root = os.path.realpath(gate_root)
         self.proc_id = proc_id
+        self.inc = incarnation
         self.wall = 1_700_000_000.0
         self.mono = 1000.0
         self.fd_paths = {}
@@ -176,10 +177,10 @@ class Seam:
             return _real_write(fd, data)
 
         os.write = os_write
-        os.getpid = lambda: 1000 + s.proc_id
-        rnd = random.Random(int(s.seed_hex[:16], 16) ^ (s.proc_id * 7919))
+        os.getpid = lambda: 1000 + s.inc
+        rnd = random.Random(int(s.seed_hex[:16], 16) ^ (s.inc * 7919))
         os.urandom = lambda n: bytes(rnd.getrandbits(8) for _ in range(n))
-        random.seed(int(s.seed_hex[16:32], 16) ^ (s.proc_id * 104729))
+        random.seed(int(s.seed_hex[16:32], 16) ^ (s.inc * 104729))
 
         class Names:
             def __init__(self):
@@ -190,7 +191,7 @@ class Seam:
 
             def __next__(self):
                 self.n += 1
-                return f"p{s.proc_id}n{self.n}"
+                return f"p{s.inc}n{self.n}"
 
         tempfile._name_sequence = Names()
         tempfile._get_candidate_names = lambda: tempfile._name_sequence
